@@ -78,6 +78,7 @@ type DgObs struct {
 	Len      int    `json:"len"`
 	T        int64  `json:"t"`
 	Mtu      int    `json:"mtu"`      // the sender's configured session MTU at this moment (0 = unknown sender)
+	OpenPar  bool   `json:"openparity"` // parity above the MTU in force whose group contains a data packet sent under a larger, earlier MTU
 	CryptOK  bool   `json:"cryptok"`  // decrypts and passes CRC32 / AEAD tag under the reference cipher
 	NonceNew bool   `json:"noncenew"` // the nonce was not used by an earlier datagram of this run
 	BytesNew bool   `json:"bytesnew"` // no earlier datagram of this run has identical bytes
@@ -113,6 +114,8 @@ type endpointInfo struct {
 	mtu       int
 	prevMtu   int   // MTU before the last change, honoured for datagrams already queued at the instant of the change
 	mtuAt     int64
+	pendMtu   int              // a SetMtu call is in progress with this value (0 = none): until it returns either MTU may be in force
+	groupMtu  map[int64]int    // FEC group (first id) -> largest MTU in force when one of its data packets was sent
 	fecBase   int64 // first FEC id seen
 	fecSeen   bool
 	group     map[int64][]byte // current groups' data packets (from the size field on), by fec seq
@@ -146,7 +149,7 @@ func (m *Monitor) Register(src, dst string, conv uint32, cfg SessCfg, snBase uin
 	m.mu.Lock()
 	defer m.mu.Unlock()
 	_, su := Crypt(cfg.Cipher)
-	ep := &endpointInfo{conv: conv, suite: su, d: cfg.D, p: cfg.P, mtu: cfg.Mtu, group: map[int64][]byte{}, snBase: snBase,
+	ep := &endpointInfo{conv: conv, suite: su, d: cfg.D, p: cfg.P, mtu: cfg.Mtu, group: map[int64][]byte{}, groupMtu: map[int64]int{}, snBase: snBase,
 		stream: map[uint32][]byte{}, frgOf: map[uint32]uint8{}}
 	if ep.mtu == 0 {
 		ep.mtu = 1400
@@ -159,6 +162,27 @@ func (m *Monitor) Register(src, dst string, conv uint32, cfg SessCfg, snBase uin
 	m.eps[addr] = ep
 }
 
+// BeginSetMtu is called just before UDPSession.SetMtu: while the call is in progress the library's own goroutines may already
+// build datagrams under the new value, so until SetMtu (accepted) or EndSetMtu (refused) the larger of the two is in force.
+func (m *Monitor) BeginSetMtu(src, dst string, mtu int) {
+	m.mu.Lock()
+	if ep := m.eps[flow(src, dst)]; ep != nil {
+		if mtu > 1500 {
+			mtu = 1500
+		}
+		ep.pendMtu = mtu
+	}
+	m.mu.Unlock()
+}
+
+func (m *Monitor) EndSetMtu(src, dst string) {
+	m.mu.Lock()
+	if ep := m.eps[flow(src, dst)]; ep != nil {
+		ep.pendMtu = 0
+	}
+	m.mu.Unlock()
+}
+
 func (m *Monitor) SetMtu(src, dst string, mtu int) {
 	m.mu.Lock()
 	if ep := m.eps[flow(src, dst)]; ep != nil {
@@ -167,6 +191,7 @@ func (m *Monitor) SetMtu(src, dst string, mtu int) {
 		}
 		ep.prevMtu, ep.mtuAt = ep.mtu, int64(time.Since(m.start)/time.Millisecond)
 		ep.mtu = mtu
+		ep.pendMtu = 0
 	}
 	m.mu.Unlock()
 }
@@ -221,6 +246,9 @@ func (m *Monitor) Observe(d *simnet.Dgram) {
 	if o.T == ep.mtuAt && ep.prevMtu > o.Mtu {
 		o.Mtu = ep.prevMtu // built before SetMtu returned, sent at the same (virtual) instant
 	}
+	if ep.pendMtu > o.Mtu {
+		o.Mtu = ep.pendMtu // SetMtu is executing right now
+	}
 	o.FD, o.FP = ep.d, ep.p
 	plain, nonce, ok := m.decrypt(ep, d.Data)
 	o.CryptOK = ok
@@ -267,6 +295,9 @@ func (m *Monitor) Observe(d *simnet.Dgram) {
 			o.FecSeq = int64(f.Seqid) - ep.fecBase
 			o.SizeOK = len(f.Padding) == 0 && int(f.Size) == len(f.Payload)+2
 			ep.group[int64(f.Seqid)] = append([]byte(nil), plain[wire.FecHeader:]...)
+			if g := int64(f.Seqid) / int64(ep.d+ep.p) * int64(ep.d+ep.p); o.Mtu > ep.groupMtu[g] {
+				ep.groupMtu[g] = o.Mtu
+			}
 			o.ParityOK = true
 			body = f.Payload
 		case wire.TypeParity:
@@ -275,6 +306,9 @@ func (m *Monitor) Observe(d *simnet.Dgram) {
 			o.Tiles = true
 			o.ConvOK = true
 			o.ParityOK = m.checkParity(ep, int64(f.Seqid), f.Payload)
+			if g := int64(f.Seqid) / int64(ep.d+ep.p) * int64(ep.d+ep.p); o.Len > o.Mtu && o.Len <= ep.groupMtu[g] {
+				o.OpenPar = true // the group was open when a smaller MTU was accepted: parity is as long as its longest data packet
+			}
 			m.Obs = append(m.Obs, o)
 			return
 		}
@@ -395,7 +429,7 @@ func (w *World) FlushWire() {
 	w.Mon.mu.Unlock()
 	for i := range obs {
 		o := obs[i]
-		w.Tr.Add(map[string]any{"ev": "dg", "id": o.ID, "src": o.Src, "dst": o.Dst, "len": o.Len, "t": o.T, "mtu": o.Mtu, "cryptok": o.CryptOK,
+		w.Tr.Add(map[string]any{"ev": "dg", "id": o.ID, "src": o.Src, "dst": o.Dst, "len": o.Len, "t": o.T, "mtu": o.Mtu, "openparity": o.OpenPar, "cryptok": o.CryptOK,
 			"noncenew": o.NonceNew, "bytesnew": o.BytesNew, "fecon": o.FecOn, "fectype": o.FecType, "fecseq": o.FecSeq, "sizeok": o.SizeOK,
 			"tiles": o.Tiles, "convok": o.ConvOK, "parityok": o.ParityOK, "segs": o.Segs, "ooblen": o.OOBLen, "injected": o.Injected, "fd": o.FD, "fp": o.FP})
 	}
